@@ -159,8 +159,11 @@ def gen(args) -> list:
                     pt = lambda x: [x.on_day_of_month(1)._days_since_epoch, 0, 0]  # noqa: E731
                     ev["has_finest"] = 1 in bits
                 ev["start"], ev["end"] = pt(a), pt(b)
-                if kind in ("date", "datetime"):
-                    ev["near_range_end"] = cal._max_days - max(n1, n2) < 60 or min(n1, n2) - cal._min_days < 60
+                lo_d, hi_d = min(ev["start"][0], ev["end"][0]), max(ev["start"][0], ev["end"][0])
+                if kind in ("date", "datetime", "yearmonth"):
+                    ev["near_range_end"] = cal._max_days - hi_d < 60 or lo_d - cal._min_days < 60
+                if cal.id == "Badi" and kind in ("date", "datetime"):
+                    ev["badi_intercalary"] = any(x.month == 18 and x.day > 19 for x in (d1, d2))
                 p = Period.between(a, b, units)
                 ev["signs"] = signs(p)
                 if kind == "yearmonth":
